@@ -458,8 +458,25 @@ Definition run_script (sc : script) : result :=
 Definition trace (sc : script) : list erec := r_trace (run_script sc).
 Definition flat_log (sc : script) : list item := flat_map e_items (trace sc).
 
+(* ---- the "falls silent" variant of a script (C13 others_as_if_silent) ---- *)
+Definition quiet_act (a : act) : act := match a with APanic => AQuiet | _ => a end.
+Definition quiet_cfg (c : modcfg) : modcfg :=
+  {| c_catch := c_catch c; c_stages := c_stages c; c_bud := c_bud c;
+     c_start := map (map quiet_act) (c_start c); c_msg := map (map quiet_act) (c_msg c);
+     c_tasks := c_tasks c; c_end := map quiet_act (c_end c) |}.
+Fixpoint upd_nth {A} (n : nat) (f : A -> A) (l : list A) : list A :=
+  match l, n with
+  | [], _ => []
+  | x :: r, O => f x :: r
+  | x :: r, S n' => x :: upd_nth n' f r
+  end.
+(* module m's callbacks fall silent where they would have panicked *)
+Definition quieten (m : N) (sc : script) : script :=
+  {| s_mods := upd_nth (N.to_nat m) quiet_cfg (s_mods sc); s_inj := s_inj sc |}.
+
 (* ---- wire format ---- *)
-(* script := k  mod{k'}  inj*                         k' = 2 + k mod 3 modules
+(* script := k  mod{k'}  inj*                         k' = 2 + k mod 3 modules; v = (k / 3) mod 5: if 1 <= v <= k' the
+                                                      variant "module v-1 falls silent instead of panicking" is run as well
    mod    := catch stages bud  progs progs progs  lp(end)      catch odd = panics are caught; stages' = 1 + stages mod 3
    progs  := n lp(prog){n}                            start programs, message programs, tasks
    prog   := (op a b c)*                              op mod 8: 0 log c | 1 send(far = a odd, delay b, payload c)
@@ -544,7 +561,19 @@ Definition enc_result (r : result) : list N :=
   flat_map enc_item (flat_map e_items (r_trace r)) ++ flat_map enc_err (r_err r) ++
   (if r_ok r then [] else [16; 0; 0; 0; 0]).
 
+Definition variant (l : list N) : option N :=
+  let '(k, _) := nxt l in
+  let v := (k / 3) mod 5 in
+  if (1 <=? v) && (v <=? 2 + k mod 3) then Some (v - 1) else None.
+
 (* the harness runs every script twice in the same process: the second simulation starts from
-   the global state the first one left behind and must produce the same log *)
+   the global state the first one left behind and must produce the same log; then, if asked
+   for, the variant in which one module falls silent instead of panicking *)
 Definition run (input : list N) : list N :=
-  let o := enc_result (run_script (decode input)) in o ++ [17; 0; 0; 0; 0] ++ o.
+  let sc := decode input in
+  let o := enc_result (run_script sc) in
+  o ++ [17; 0; 0; 0; 0] ++ o ++
+  match variant input with
+  | Some m => [18; m; 0; 0; 0] ++ enc_result (run_script (quieten m sc))
+  | None => []
+  end.
